@@ -135,6 +135,18 @@ CHECKS = {
         ref="DESIGN.md 6 (C08)",
         technique="TLA+ typing rules over a class model; TLC-enumerated well-typed chains rendered to real generated "
                   "classes; TLC trace validation of observed item types"),
+    "C09": dict(
+        text="spec/GenCallbacks.tla enumerates callback placement (class / method / both / function processor / "
+             "parameterised property) x 8 call-site contexts (depth 0-3 inside Select / Where / SelectMany lambdas of the "
+             "stream and of typed collections, first or second stage, on First()) x one or two call sites x rewriting "
+             "callbacks. Classes with logging callbacks are generated, the query is built with the real operators and "
+             "TLC (TraceTyped.JudgeCallbacks) decides: fired multiset = TypeFollow.PlannedPairs, class before method per "
+             "site, nothing fired for absent sites or the decoy class, each callback's MetaData on the source chain "
+             "upstream of the operator whose lambda holds the site, the emitted call is the rewritten one ([param] "
+             "removed, parameters by value).",
+        ref="DESIGN.md 6 (C09)",
+        technique="TLC-enumerated placements x contexts rendered to real generated classes with logging callbacks; TLC "
+                  "trace validation of firing log, metadata placement and emitted call against the callback plan"),
 }
 
 ORDER = ["C%02d" % i for i in range(1, 21)]
